@@ -7,7 +7,7 @@ A program is a list of statement dicts {"label","mn","op","comment"}; ``render``
 source lines.  The vocabulary is deliberately tiny (8 labels, 6 EQU names) so that names collide.
 """
 
-LABELS = ["L1", "L2", "L3", "L4", "LOOP", "DONE", "T", "START"]
+LABELS = ["L1", "L2", "L3", "L4", "LOOP", "DONE", "T", "START", "VERYLONGLABEL01", "AnotherLongLabelName"]
 EQUS = ["E1", "E2", "E3", "K8", "K16", "ZERO"]
 
 INHERENT = ["NOP", "CLRA", "CLRB", "RTS", "ABX", "MUL", "INCA", "DECB", "SEX", "DAA", "SWI", "SYNC", "SWI2", "SWI3", "RTI"]
@@ -178,6 +178,8 @@ class ProgGen(object):
                     # a symbol defined as another symbol (or a label): alias chains, possibly running into a cycle
                     op = rng.choice([x for x in self.equs if x != e] + self.labels[:1])
                 stmts.append({"label": e, "mn": "EQU", "op": op, "comment": ""})
+        if stmts and stmts[0]["mn"] == "NAM" and rng.chance(0.1):
+            self.second_nam = {"label": "", "mn": "NAM", "op": rng.choice(["OTHER", "zz", "Second1"]), "comment": ""}
         if rng.chance(0.08):
             stmts.append({"label": "", "mn": "SETDP", "op": rng.choice(["$0E", "$10", "$FF", "0", "$E"]), "comment": ""})
         if rng.chance(0.7):
@@ -185,7 +187,7 @@ class ProgGen(object):
         body = []
         for _ in range(self.n):
             mn, op = self.statement()
-            body.append({"label": "", "mn": mn, "op": op, "comment": rng.choice(["", "", "", "a comment", "x ; y", "load it"])})
+            body.append({"label": "", "mn": mn, "op": op, "comment": rng.choice(COMMENTS)})
         # place each label on exactly one body statement (or on an extra NOP at the end)
         slots = rng.shuffle(list(range(len(body))))
         for k, lab in enumerate(self.labels):
@@ -193,6 +195,8 @@ class ProgGen(object):
                 body[slots[k]]["label"] = lab
             else:
                 body.append({"label": lab, "mn": "NOP", "op": "", "comment": ""})
+        if getattr(self, "second_nam", None):
+            body.insert(rng.randint(0, len(body)), self.second_nam)      # two NAM lines: the last one names the program
         stmts.extend(body)
         late = [e for e in self.equs if not any(s["label"] == e for s in stmts)]
         for e in late:
@@ -221,7 +225,8 @@ def render(stmts, rng=None):
 # mutations of one line (C13 workload class b) and random lines (class c)
 # ---------------------------------------------------------------------------------------------
 
-ALPHABET = "ABXYUSDPCRLNOEQ019 \t,#$%'\"[]<>+-*/;:@.()=!&^?_"
+ALPHABET = "ABXYUSDPCRLNOEQ019 \t,#$%'\"[]<>+-*/;:@.()=!&^?_{}|~`\\"
+COMMENTS = ["", "", "", "a comment", "x ; y", "load it", "{0} {name} }{", "100% {", "back\\slash `tick` ~", "tab\there"]
 PUNCT = [",", ",,", "#", "$", "%", "'", "\"", "[", "]", "[]", "<", ">", "+", "-", "*", "/", ";", ":", "@", ".", "(", ")", "=", "!", "&", "^", "?"]
 MUTATIONS = ["del_label", "del_mn", "del_op", "dup_op", "swap", "empty_op_keep_space", "unterminated", "stray",
              "stray_front", "reg_replace", "out_of_range", "dup_label", "undef_label", "bad_mnemonic", "trailing_comma",
